@@ -5,9 +5,10 @@ import BaoProofs.Props.C12
 /-!
 # Lemmas for `Bao.Ops.planPostWF` (the executable specification predicate of the post-order plan)
 
-`planPostWF size bs plan = none` is unfolded into five clauses over the plan views of
-`BaoProofs/Lemmas/NodeIter.lean` (`leavesOf`, `stackRun`, `rootFlag`, `parentsOf`) and `bothFlags`:
-`planPostWF_none_iff`.  The match expressions written inline in the predicate are restated here as
+`planPostWF size bs plan = none` is unfolded into six clauses over the plan views of
+`BaoProofs/Lemmas/NodeIter.lean` (`leavesOf`, `stackRun`, `rootFlag`, `parentsOf`), `bothFlags` and
+the span walk `spanRun`: `planPostWF_none_iff`.  The span walk over the plan of a subtree pushes
+exactly the chunk span of that subtree, clipped to the blob (`span_planD`, `span_plan`).  The match expressions written inline in the predicate are restated here as
 definitions with the same source text (`leafView`, `parentView`, `notBoth`, `stackStep'`), which
 are definitionally the predicate's, and then related to the views by case analysis.
 -/
@@ -27,7 +28,7 @@ def bothFlags : Chunk → Bool
   | .parent _ _ l r _ => l && r
   | .leaf .. => true
 
-/-! ### the five clauses of the predicate -/
+/-! ### the six clauses of the predicate -/
 
 /-- clause 1: the leaf items are exactly the blocks `0 … nBlocks-1`, in order -/
 def LeavesTile (size bs : Nat) (plan : List Chunk) : Prop := leavesOf plan = wantLeaves size bs
@@ -45,6 +46,31 @@ def ParentsPersisted (size bs : Nat) (plan : List Chunk) : Prop :=
 
 /-- clause 5: every parent item flags both children -/
 def BothChildren (plan : List Chunk) : Prop := ∀ c ∈ plan, bothFlags c = true
+
+/-- one step of the span walk of clause 6: the state is a stack of chunk spans `(first, one past
+last)`; a leaf pushes its span, a parent needs the spans of its two subtrees on top — adjacent and
+meeting at the node's middle chunk — and replaces them by their union (same source text as the
+inline function of the predicate) -/
+def spanStep (st : Option (List (Nat × Nat))) (c : Chunk) : Option (List (Nat × Nat)) :=
+    match st with
+    | none => none
+    | some st =>
+      match c with
+      | .leaf s z _ _ => some ((s, s + max 1 ((z + 1023) / 1024)) :: st)
+      | .parent node _ _ _ _ =>
+        match st with
+        | (rs, re) :: (ls, le) :: rest =>
+          if le == rs && rs == Node.mid node then some ((ls, re) :: rest) else none
+        | _ => none
+
+/-- the span walk over a plan from the span stack `st`; `none` = some parent did not find its two
+subtrees on top -/
+def spanRun (st : List (Nat × Nat)) (plan : List Chunk) : Option (List (Nat × Nat)) :=
+  plan.foldl spanStep (some st)
+
+/-- clause 6: the span walk from the empty stack runs through: every parent comes right after its
+two subtrees -/
+def SpansOk (plan : List Chunk) : Prop := ∃ st, spanRun [] plan = some st
 
 /-! ### the predicate's inline matches as definitions -/
 
@@ -85,18 +111,19 @@ theorem view_stack : stackStep' = stackStep := by
       simp only [stackStep, stackStep']
       split <;> split <;> first | rfl | omega
 
-/-- the predicate accepts a plan iff the five clauses hold -/
+/-- the predicate accepts a plan iff the six clauses hold -/
 theorem planPostWF_none_iff (size bs : Nat) (plan : List Chunk) :
     planPostWF size bs plan = none ↔
       LeavesTile size bs plan ∧ StackOk plan ∧ RootLast plan ∧ ParentsPersisted size bs plan ∧
-      BothChildren plan := by
-  unfold LeavesTile StackOk RootLast ParentsPersisted BothChildren planPostWF
+      BothChildren plan ∧ SpansOk plan := by
+  unfold LeavesTile StackOk RootLast ParentsPersisted BothChildren SpansOk planPostWF
   simp only []
   change (if (plan.filterMap leafView != wantLeaves size bs) = true then _ else
     if (plan.foldl stackStep' (some 0) != some 1) = true then _ else
     if (plan.map rootFlag != _) = true then _ else
-    if (plan.filterMap parentView != _) = true then _ else 
-    if (plan.any notBoth) = true then _ else _) = none ↔ _
+    if (plan.filterMap parentView != _) = true then _ else
+    if (plan.any notBoth) = true then _ else
+    if (spanRun [] plan).isNone = true then _ else _) = none ↔ _
   rw [view_stack, view_leaves, view_parents]
   change (if (leavesOf plan != wantLeaves size bs) = true then _ else
     if (stackRun 0 plan != some 1) = true then _ else _) = none ↔ _
@@ -110,9 +137,15 @@ theorem planPostWF_none_iff (size bs : Nat) (plan : List Chunk) :
       · by_cases h4 : parentsOf plan = Spec.persistedPost size bs
         · by_cases h5 : ∀ c ∈ plan, bothFlags c = true
           · simp only [h1, h2, h3, h4, if_true, if_neg (mt hany.mp (not_not_intro h5)), true_and]
-            exact ⟨fun _ => h5, fun _ => trivial⟩
+            cases h6 : spanRun [] plan with
+            | none =>
+              simp only [Option.isNone_none, if_true]
+              exact ⟨fun h => (by cases h), fun h => by obtain ⟨_, st, hst⟩ := h; cases hst⟩
+            | some st =>
+              simp only [Option.isNone_some, Bool.false_eq_true, if_false]
+              exact ⟨fun _ => ⟨h5, st, rfl⟩, fun _ => trivial⟩
           · simp only [h1, h2, h3, h4, if_true, if_pos (hany.mpr h5), true_and]
-            exact ⟨fun h => (by cases h), fun h => absurd h h5⟩
+            exact ⟨fun h => (by cases h), fun h => absurd h.1 h5⟩
         · simp [h1, h2, h3, h4]
       · simp [h1, h2, h3]
     · simp [h1, h2]
@@ -219,5 +252,205 @@ theorem wantLeaves_tile (size bs i : Nat) (h : i < Spec.nBlocks size bs) :
   have := leaf_cover size bs i h
   simp only [leafInfo, Nat.mul_assoc] at this
   exact this
+
+/-! ### clause 6: the span walk over the plan of a subtree -/
+
+theorem spanRun_nil (st : List (Nat × Nat)) : spanRun st [] = some st := rfl
+
+theorem spanRun_leaf (st : List (Nat × Nat)) (s z : Nat) (r : Bool) (rs : Ranges) (t : List Chunk) :
+    spanRun st (.leaf s z r rs :: t) = spanRun ((s, s + max 1 ((z + 1023) / 1024)) :: st) t := rfl
+
+theorem spanRun_parent {rs re ls le node : Nat} (rest : List (Nat × Nat)) (r l rr : Bool)
+    (x : Ranges) (t : List Chunk) (h1 : le = rs) (h2 : rs = Node.mid node) :
+    spanRun ((rs, re) :: (ls, le) :: rest) (.parent node r l rr x :: t)
+      = spanRun ((ls, re) :: rest) t := by
+  have : spanStep (some ((rs, re) :: (ls, le) :: rest)) (.parent node r l rr x)
+      = some ((ls, re) :: rest) := by
+    simp only [spanStep, h1, ← h2, beq_self_eq_true, Bool.and_self, if_true]
+  unfold spanRun
+  rw [List.foldl_cons, this]
+
+/-- a parent step that succeeds found two adjacent spans meeting at the node's middle chunk -/
+theorem spanStep_parent_inv {st s : List (Nat × Nat)} {node : Nat} {r l rr : Bool} {x : Ranges}
+    (h : spanStep (some st) (.parent node r l rr x) = some s) :
+    ∃ ls re rest, st = (Node.mid node, re) :: (ls, Node.mid node) :: rest ∧ s = (ls, re) :: rest := by
+  match st, h with
+  | [], h => simp [spanStep] at h
+  | [_], h => simp [spanStep] at h
+  | (rs, re) :: (ls, le) :: rest, h =>
+    simp only [spanStep, Bool.and_eq_true, beq_iff_eq] at h
+    split at h
+    · rename_i hc
+      obtain ⟨h1, h2⟩ := hc
+      subst h1; subst h2
+      exact ⟨ls, re, rest, rfl, (Option.some.inj h).symm⟩
+    · cases h
+
+theorem spanRun_append (st : List (Nat × Nat)) (a b : List Chunk) :
+    spanRun st (a ++ b) = (spanRun st a).bind fun st' => spanRun st' b := by
+  unfold spanRun
+  rw [List.foldl_append]
+  cases List.foldl spanStep (some st) a with
+  | some st' => rfl
+  | none =>
+    simp only [Option.bind_none]
+    induction b with
+    | nil => rfl
+    | cons c b ih => exact ih
+
+/-- no prefix of a plan whose span walk runs through fails -/
+theorem span_prefix {plan a b : List Chunk} {st r : List (Nat × Nat)} (h : spanRun st plan = some r)
+    (hab : plan = a ++ b) : ∃ s, spanRun st a = some s := by
+  rw [hab, spanRun_append] at h
+  cases hs : spanRun st a with
+  | some s => exact ⟨s, rfl⟩
+  | none => rw [hs] at h; simp at h
+
+/-- in a plan whose span walk runs through, every parent item finds — at its position — the spans
+of two subtrees on top of the stack: adjacent, meeting exactly at the node's middle chunk -/
+theorem span_at_parent {plan a b : List Chunk} {r0 : List (Nat × Nat)} {node : Nat}
+    {r l rr : Bool} {x : Ranges} (h : spanRun [] plan = some r0)
+    (hab : plan = a ++ .parent node r l rr x :: b) :
+    ∃ ls re rest, spanRun [] a = some ((Node.mid node, re) :: (ls, Node.mid node) :: rest) := by
+  have hab' : plan = (a ++ [.parent node r l rr x]) ++ b := by rw [hab, List.append_assoc]; rfl
+  obtain ⟨s, hs⟩ := span_prefix h hab'
+  rw [spanRun_append] at hs
+  cases ha : spanRun [] a with
+  | none => rw [ha] at hs; simp at hs
+  | some st =>
+    rw [ha, Option.bind_some] at hs
+    change spanStep (some st) (.parent node r l rr x) = some s at hs
+    obtain ⟨ls, re, rest, e, _⟩ := spanStep_parent_inv hs
+    exact ⟨ls, re, rest, by rw [e]⟩
+
+open Bao.Offsets Bao.Bits in
+/-- block `b` of the blob starts before the blob's last chunk ends -/
+theorem block_start_lt (size bs b : Nat) (h : b < Tree.blocks ⟨size, bs⟩) :
+    b * 2 ^ bs < Spec.nChunks size := by
+  unfold Spec.nChunks
+  by_cases h0 : b = 0
+  · subst h0; omega
+  · have := (lt_blocks_iff size bs b (by omega)).mp h
+    rw [Nat.pow_add, ← Nat.mul_assoc] at this
+    have e10 : (2 : Nat) ^ 10 = 1024 := by decide
+    rw [e10] at this
+    generalize b * 2 ^ bs = q at *
+    omega
+
+open Bao.Offsets Bao.Bits in
+/-- a block index at or past `blocks` starts at or past the end of the blob -/
+theorem nChunks_le_of_blocks_le (size bs b : Nat) (h : Tree.blocks ⟨size, bs⟩ ≤ b) :
+    Spec.nChunks size ≤ b * 2 ^ bs := by
+  have hb := blocks_pos size bs
+  have := mt (lt_blocks_iff size bs b (by omega)).mpr (by omega)
+  rw [Nat.pow_add, ← Nat.mul_assoc] at this
+  have e10 : (2 : Nat) ^ 10 = 1024 := by decide
+  rw [e10] at this
+  have hq : 0 < b * 2 ^ bs := Nat.mul_pos (by omega) (two_pow_pos' bs)
+  unfold Spec.nChunks
+  generalize b * 2 ^ bs = q at *
+  omega
+
+open Bao.Offsets Bao.Bits in
+/-- the span pushed by the leaf item of block `b`: its chunks, clipped to the blob -/
+theorem leaf_span (size bs b : Nat) (h : b < Tree.blocks ⟨size, bs⟩) :
+    b * 2 ^ bs + max 1 ((min (2 ^ bs * 1024) (size - b * 2 ^ bs * 1024) + 1023) / 1024)
+      = min ((b + 1) * 2 ^ bs) (Spec.nChunks size) := by
+  have hp := two_pow_pos' bs
+  have h1 : 0 < b → b * 2 ^ bs * 1024 < size := by
+    intro hb
+    have := (lt_blocks_iff size bs b hb).mp h
+    rwa [Nat.pow_add, ← Nat.mul_assoc] at this
+  have h2 := lt_blocks_iff size bs (b + 1) (by omega)
+  rw [Nat.pow_add, ← Nat.mul_assoc, Nat.add_mul, Nat.one_mul] at h2
+  have e10 : (2 : Nat) ^ 10 = 1024 := by decide
+  rw [e10] at h2
+  have h0 : b = 0 → b * 2 ^ bs = 0 := by intro hb; rw [hb, Nat.zero_mul]
+  rw [Nat.add_mul, Nat.one_mul]
+  unfold Spec.nChunks
+  generalize b * 2 ^ bs = q at *
+  generalize 2 ^ bs = p at *
+  by_cases hb : 0 < b
+  · have := h1 hb
+    by_cases hn : b + 1 < Tree.blocks ⟨size, bs⟩
+    · have := h2.mp hn; omega
+    · have := mt h2.mpr hn; omega
+  · have := h0 (by omega)
+    by_cases hn : b + 1 < Tree.blocks ⟨size, bs⟩
+    · have := h2.mp hn; omega
+    · have := mt h2.mpr hn; omega
+
+theorem midOf_shift (k L bs : Nat) : Spec.midOf k L * 2 ^ bs = Spec.midOf k (L + bs) := by
+  unfold Spec.midOf
+  rw [Nat.add_mul, Nat.mul_assoc, ← Nat.pow_add, ← Nat.pow_add, Nat.add_right_comm L 1 bs]
+
+section spans
+open Bao.Spec Bao.Offsets Bao.Bits
+variable {size bs F : Nat} (g : Geo size bs F) (root : Nat)
+include g
+
+/-- running the span walk over the plan of the non-empty subtree `(k, L)` of the shifted tree
+pushes exactly the chunk span of that subtree, clipped to the blob -/
+theorem span_planD (L k : Nat) (hne : startOf k L < F) (st : List (Nat × Nat)) :
+    spanRun st (planD size bs root F L k)
+      = some ((startOf k L * 2 ^ bs, min (endOf k L * 2 ^ bs) (nChunks size)) :: st) := by
+  have hodd := g.odd; have hle := g.le; have hge := g.ge
+  induction L generalizing k st with
+  | zero =>
+    rw [startOf_zero] at hne
+    rw [endOf_start, startOf_zero, Nat.zero_add, Nat.pow_one]
+    by_cases h : 2 * k + 1 < Tree.blocks ⟨size, bs⟩
+    · have ha := block_start_lt size bs _ h
+      obtain ⟨_, hmid⟩ := chunkRange_up bs k g.hbs
+      rw [planD_zero_full g root h]
+      simp only [leafItem]
+      rw [spanRun_leaf, leaf_span size bs _ (by omega), spanRun_leaf, leaf_span size bs _ h,
+        spanRun_parent _ _ _ _ _ _ (Nat.min_eq_left (Nat.le_of_lt ha))
+          (by rw [hmid, odd_mul]), spanRun_nil]
+    · have hb := nChunks_le_of_blocks_le size bs (2 * k + 1) (by omega)
+      have hb2 := nChunks_le_of_blocks_le size bs (2 * k + 2) (by omega)
+      rw [planD_zero_half g root hne (by omega)]
+      simp only [leafItem]
+      rw [spanRun_leaf, leaf_span size bs _ (by omega), spanRun_nil, Nat.min_eq_right hb,
+        Nat.min_eq_right hb2]
+  | succ L ih =>
+    by_cases h : nodeOf k (L + 1) < F
+    · have hl : startOf (2 * k) L < F := by
+        rw [Offsets.startOf_left]
+        have := nodeOf_start k (L + 1); have := two_pow_pos' (L + 1); omega
+      have hr := (right_nonempty hodd h).1
+      have ha := block_start_lt size bs (startOf (2 * k + 1) L) (by omega)
+      rw [planD_succ_pos g root h, spanRun_append, spanRun_append, ih _ hl, Option.bind_some,
+        ih _ hr, Option.bind_some, Bits.endOf_left, Bits.startOf_right,
+        Bits.endOf_right, Offsets.startOf_left]
+      rw [Bits.startOf_right] at ha
+      rw [spanRun_parent _ _ _ _ _ _ (Nat.min_eq_left (Nat.le_of_lt ha))
+        (by rw [up_nodeOf, C18.mid_spec, midOf_shift]), spanRun_nil]
+    · have hB : Tree.blocks ⟨size, bs⟩ ≤ endOf (2 * k) L := by
+        rw [endOf_start, Offsets.startOf_left]
+        have := nodeOf_start k (L + 1); have := two_pow_pos' (L + 1); omega
+      have hB2 : Tree.blocks ⟨size, bs⟩ ≤ endOf k (L + 1) := by
+        rw [← Bits.endOf_right, endOf_start, Offsets.startOf_right]
+        rw [endOf_start, Offsets.startOf_left] at hB
+        omega
+      rw [planD_succ_neg root h, ih _ (by rw [Offsets.startOf_left]; exact hne),
+        Offsets.startOf_left,
+        Nat.min_eq_right (nChunks_le_of_blocks_le size bs _ hB),
+        Nat.min_eq_right (nChunks_le_of_blocks_le size bs _ hB2)]
+
+end spans
+
+/-- the span walk over the model plan ends with the single span `[0, nChunks)` -/
+theorem span_plan (size bs : Nat) (hs : size ≤ 2 ^ 63) (hbs : bs ≤ 10) :
+    spanRun [] (Tree.postOrderChunks ⟨size, bs⟩) = some [(0, Spec.nChunks size)] := by
+  obtain ⟨_, _, hlt, hF⟩ := rootLevel_spec size bs hs
+  have g := shifted_geo size bs hs hbs
+  have hge := g.ge
+  have hB : Tree.blocks ⟨size, bs⟩ ≤ Spec.endOf 0 (rootLevel ⟨size, bs⟩) := by
+    simp only [Spec.endOf, Nat.zero_add, Nat.one_mul]; omega
+  rw [plan_rec size bs hs hbs, ← planD_eq_planRec g,
+    span_planD g _ _ 0 (by simp only [Spec.startOf, Nat.zero_mul]; omega) [],
+    Nat.min_eq_right (nChunks_le_of_blocks_le size bs _ hB)]
+  simp only [Spec.startOf, Nat.zero_mul]
 
 end Bao.SpecPost
